@@ -182,6 +182,26 @@ def run(S, spec):
                     break
             if safe:
                 S.expect(not rejected, "C08", "spurious-rejection", "no account can go negative under any same-instant order, yet the run was rejected: %s" % str(err)[:160])
+            else:
+                # inside one instant what an account acquires and receives is there before it is sold (acquisitions, then
+                # transfers, then disposals): transfers of the same instant are taken in their worst order, a disposal may
+                # rely on everything that arrived in the same instant
+                ok2 = True
+                for acc in accounts:
+                    for j in range(n):
+                        before = sum(credit(i, acc) - debit(i, acc) for i in range(n) if t[i] < t[j])
+                        same = [i for i in range(n) if t[i] == t[j]]
+                        in_c = sum(credit(i, acc) for i in same if slots[i]["table"] == "IN")
+                        tr_c = sum(credit(i, acc) for i in same if slots[i]["table"] == "INTRA")
+                        tr_d = sum(debit(i, acc) for i in same if slots[i]["table"] == "INTRA")
+                        out_d = sum(debit(i, acc) for i in same if slots[i]["table"] == "OUT")
+                        if before + in_c - tr_d < 0 or before + in_c + tr_c - tr_d - out_d < 0:
+                            ok2 = False
+                            break
+                    if not ok2:
+                        break
+                if ok2:
+                    S.expect(not rejected, "C08", "spurious-rejection-tie", "every account covers its disposals with what it holds and receives up to the same instant, yet the run was rejected: %s" % str(err)[:160])
         if rejected:
             S.note("rejected")
             return "rejected"
